@@ -41,5 +41,11 @@ CHECKS = {
   text="Every sequence of <= 3 (4) titles from an 18-title pool built to collide (equal base slugs, titles equal to suffixed forms, skipped inline tokens), also nested in quotes/list items, every level assignment for short sequences x heading_anchors 0..3, the H1..H6 document x heading_anchors 0..7 and five custom slug functions are rendered; slugs must equal the documented rule with first-free suffixing, equal the ids printed by myst_parser.cli.print_anchors, be pairwise distinct, and each [](#slug) must resolve to the heading carrying it; a raising slug function yields one warning per heading.",
   note="Trusted: the 3-line slug model; myst-anchors CLI = print_anchors in-process; titles with leading/trailing blanks are only compared with the CLI (known finding: '-a' vs 'a'); docutils front end.",
  ),
+ "C11": dict(
+  category="model_checking",
+  technique="bounded exhaustive enumeration of arrangements of footnote references/definitions x sort x transition settings, executed through the full docutils transform pipeline against a numbering/linking/collection reference model",
+  text="Every sequence of <= 3 (4) blocks over 13 (16) footnote symbols and of <= 4 (6) over a 9-symbol sub-alphabet (named/numeric/duplicate/undefined/unreferenced labels, definitions inside quotes and list items, multiple and repeated references) under the four footnote_sort x footnote_transition settings is run through publish_doctree; label numbers, reference numbers and refids, back-reference lists in source order, distinct labels, kept body texts, warning counts ([ref.footnote] per duplicate and per unreferenced definition) and the top-level collection order / transition must equal a 40-line model.",
+  note="Trusted: the model (numbering by first reference asserted only with footnote_sort=True; footnotes-only documents unspecified for the transition); docutils front end only.",
+ ),
 }
 NOT_APPLICABLE = {}
